@@ -6,6 +6,7 @@ import (
 	"bytes"
 	"context"
 	"crypto/sha256"
+	"encoding/hex"
 	"errors"
 	"fmt"
 	"io"
@@ -53,8 +54,11 @@ type Op struct {
 
 // Case is a generated test case for E1.
 type Case struct {
-	Prof     string   `json:"prof"`
-	Keys     []string `json:"keys"`
+	Prof string   `json:"prof"`
+	Keys []string `json:"keys"`
+	// KeysHex: further keys, hex encoded because they are not valid UTF-8 (a Go string may hold any
+	// bytes, JSON cannot); appended to Keys when the world is built
+	KeysHex  []string `json:"keys_hex,omitempty"`
 	Ops      []Op     `json:"ops"`
 	Roots    int      `json:"roots,omitempty"`
 	MaxDir   uint64   `json:"max_dir,omitempty"`
@@ -101,7 +105,7 @@ type World struct {
 
 	removedInGC int64
 	inGC        atomic.Bool
-	held []heldRead // results of earlier reads, re-verified after every later read
+	held        []heldRead // results of earlier reads, re-verified after every later read
 }
 
 var dirCounter atomic.Int64
@@ -117,6 +121,15 @@ func dbRoot() string {
 func newWorldStruct(c Case, r *ev.Result) *World {
 	if c.Roots < 1 {
 		c.Roots = 1
+	}
+	if len(c.KeysHex) > 0 {
+		keys := append([]string(nil), c.Keys...)
+		for _, h := range c.KeysHex {
+			if b, err := hex.DecodeString(h); err == nil && len(b) > 0 {
+				keys = append(keys, string(b))
+			}
+		}
+		c.Keys, c.KeysHex = keys, nil
 	}
 	return &World{Case: c, R: r, M: model.New(), handles: map[int]*handle{}, byHash: map[[32]byte]string{}, Stats: map[string]int{}, ctx: context.Background()}
 }
